@@ -62,6 +62,26 @@ def _fmt_sites(func, literal_prefix):
     return out
 
 
+MACRO_CALL = ("__m(__stream, _C, rcontext, __i18n_domain, __i18n_context, "
+              "target_language)")
+
+
+def slot_stores(lin):
+    """fragments that store a filler stack under a slot key:
+    [(index, frag, binds, target)] with target 'caller' (econtext[...]) or
+    the key of the generated local stored into"""
+    out = []
+    for i, (it, conds, path) in enumerate(lin.rows):
+        if isinstance(it, A.Frag):
+            for node, b in L.frag_find(it, "_S = _C[_K] = _D((_N,))"):
+                c = b["_C"]
+                if src(c) == "econtext" and "econtext" not in it.slots:
+                    out.append((i, it, b, "caller"))
+                elif isinstance(c, ast.Name):
+                    out.append((i, it, b, L.name_key(it, c)))
+    return out
+
+
 def _keys(repo, rep):
     use = repo.func(COMP + "visit_UseExternalMacro")
     ds = repo.func(COMP + "visit_DefineSlot")
@@ -85,11 +105,10 @@ def _keys(repo, rep):
                   detail="writer %s / reader %s" % (src(w[0]), src(r[0])))
     # the caller stores under that key; the prologue pops that key
     res = L.emission(repo, use.qualname)
-    stores = []
-    for wv in A.walk(res.emission):
-        if isinstance(wv, A.Frag):
-            for node, b in L.frag_find(wv, "_S = econtext[_K] = _D((_N,))"):
-                stores.append((wv, b))
+    lin_ = L.Lin(res.emission)
+    ci_, ck_ = L.scoped_call(lin_, MACRO_CALL)
+    stores = [(fr_, b_) for i_, fr_, b_, tg_ in slot_stores(lin_)
+              if tg_ == "caller" or tg_ == ck_]
     rep.check(len(stores) >= 1, "R09.1", use.qualname,
               "a caller stores its filler under the slot key in the variable "
               "scope handed to the macro", construct="slot-store")
@@ -235,7 +254,7 @@ def _slots(repo, rep):
         if isinstance(it, A.Frag):
             if L.frag_find(it, "_S.appendleft(_N)", "expr"):
                 ext = (i, conds, path)
-            if L.frag_find(it, "_S = econtext[_K] = _D((_N,))"):
+            if any(i_ == i for i_, fr_, b_, tg_ in slot_stores(lin)):
                 pol = L.polarity(conds, "node.extend")
                 if pol is False:
                     plain = (i, conds, path)
@@ -300,20 +319,21 @@ def _slots(repo, rep):
               "the macro may call it while capturing output for translation",
               construct="fill-own-stream", where=L.where(use),
               detail="the filler body uses the enclosing function's __append")
-    # what the caller stores in its own scope is taken back after the call
-    stores = [i for i, (it, c_, p_) in enumerate(lin.rows)
-              if isinstance(it, A.Frag) and
-              L.frag_find(it, "_S = econtext[_K] = _D((_N,))")]
-    callx = lin.index(lambda it: isinstance(it, A.Frag) and bool(
-        L.frag_find(it, "__m(__stream, econtext.copy(), rcontext, "
-                        "__i18n_domain, __i18n_context, target_language)",
-                    "expr")))
+    # what the caller stores for the macro does not stay in its own scope:
+    # it goes into the copy handed to the macro, or is taken back afterwards
+    callx, ckey = L.scoped_call(lin, MACRO_CALL)
+    sts = slot_stores(lin)
+    stores = [i for i, fr_, b_, tg_ in sts]
+    in_caller = [i for i, fr_, b_, tg_ in sts if tg_ == "caller"]
+    stray = [i for i, fr_, b_, tg_ in sts if tg_ != "caller" and tg_ != ckey]
     cleanup = [i for i, (it, c_, p_) in enumerate(lin.rows)
                if i > callx >= 0 and isinstance(it, A.Frag) and (
                    L.frag_find(it, "del econtext[_K]") or
                    L.frag_find(it, "econtext.pop(_K, _X)", "expr") or
                    L.frag_find(it, "econtext[_K] = _B") or
                    L.frag_find(it, "_S.remove(_N)", "expr"))]
+    if not in_caller and not stray and stores and callx >= 0:
+        cleanup = ["stored in the copy"]
     rep.check(bool(stores) and bool(cleanup), "R09.2", use.qualname,
               "the fillers a use-macro element stores in the caller's scope "
               "are removed (or the previous binding restored) after the "
@@ -323,10 +343,7 @@ def _slots(repo, rep):
               detail="%d store fragment(s), %d clean-up fragment(s) after "
                      "the call" % (len(stores), len(cleanup)))
     # fillers are defined before the macro is called
-    call = lin.index(lambda it: isinstance(it, A.Frag) and bool(
-        L.frag_find(it, "__m(__stream, econtext.copy(), rcontext, "
-                        "__i18n_domain, __i18n_context, target_language)",
-                    "expr")))
+    call = callx
     fdi = lin.index(L.is_py("FunctionDef"))
     rep.check(0 <= fdi < call, "R09.2", use.qualname, "fillers are defined "
               "and stored before the macro is called",
